@@ -62,6 +62,7 @@ type FuncInfo struct {
 	Obj  *types.Func
 	Name string // qualified: pkgpath.Func or pkgpath.(*T).Method / pkgpath.(T).Method
 	File *ast.File
+	Prog *Program
 }
 
 // Load loads ./... of the repository with full syntax and types for module packages.
